@@ -328,7 +328,7 @@ var c12RawValues = []string{"0", "1", "-1", "42", "2147483647", "2147483648", "4
 	"9223372036854775807", "9223372036854775808", "18446744073709551615", "18446744073709551616", "-9223372036854775808", "-9223372036854775809"}
 
 // c12Gen draws one event and computes what the statement says about it.
-func c12Gen(rnd *rand.Rand, id int32, now uint32) *c12Event {
+func c12Gen(rnd *rand.Rand, seq int, id int32, now uint32) *c12Event {
 	e := &c12Event{id: id, reasons: map[int32]bool{}, wantTags: map[int32]int32{}, wantSTags: map[int32]string{}, tagsJudgeable: true}
 	plain := rnd.IntN(3) == 0 // a third of the events have tame numbers, so that tag handling is judged on accepted events too
 	// ---- metric
@@ -355,34 +355,95 @@ func c12Gen(rnd *rand.Rand, id int32, now uint32) *c12Event {
 		e.metricName = []byte(e.metric.name)
 	}
 	// ---- numbers
-	if rnd.IntN(3) != 0 {
+	if seq%2 == 0 {
+		// systematic half: every combination of the event's parts in turn — counter
+		// {absent, 0, positive} × values {none, some} × histogram {none, zero weights only,
+		// positive weights} × uniques {none, some} = 36 — so that each validity rule and each
+		// weighting branch meets every other part present and absent.  Numbers are tame in
+		// three of four such events so that the combination alone decides validity.
+		combo := (seq / 2) % 36
+		if rnd.IntN(4) != 0 {
+			plain = true
+		}
+		switch combo % 3 {
+		case 1:
+			e.hasCounter, e.counter = true, 0
+		case 2:
+			e.hasCounter, e.counter = true, float64(1+rnd.IntN(9))
+			if !plain {
+				e.counter = c12Num(rnd, false)
+			}
+		}
+		combo /= 3
+		if combo%2 == 1 {
+			for i, n := 0, 1+rnd.IntN(3); i < n; i++ {
+				e.values = append(e.values, c12Num(rnd, plain))
+			}
+		} else if rnd.IntN(2) == 0 {
+			e.values = []float64{} // present but empty
+		}
+		combo /= 2
+		switch combo % 3 {
+		case 0:
+			if rnd.IntN(2) == 0 {
+				e.hist = [][2]float64{}
+			}
+		case 1:
+			for i, n := 0, 1+rnd.IntN(2); i < n; i++ {
+				e.hist = append(e.hist, [2]float64{c12Num(rnd, plain), 0})
+			}
+		case 2:
+			for i, n := 0, 1+rnd.IntN(3); i < n; i++ {
+				wgt := float64(1 + rnd.IntN(5))
+				if !plain {
+					wgt = c12Num(rnd, false)
+				}
+				e.hist = append(e.hist, [2]float64{c12Num(rnd, plain), wgt})
+			}
+		}
+		combo /= 3
+		if combo%2 == 1 {
+			for i, n := 0, 1+rnd.IntN(4); i < n; i++ {
+				e.uniq = append(e.uniq, int64(rnd.IntN(50))-5)
+			}
+		} else if rnd.IntN(2) == 0 {
+			e.uniq = []int64{}
+		}
+	} else if rnd.IntN(3) != 0 {
 		e.hasCounter, e.counter = true, c12Num(rnd, plain)
 	}
-	switch rnd.IntN(7) {
-	case 0, 1:
+	switch c := rnd.IntN(7); {
+	case seq%2 == 0:
+		// parts already chosen above
+	case c <= 1:
 		for i, n := 0, 1+rnd.IntN(4); i < n; i++ {
 			e.values = append(e.values, c12Num(rnd, plain))
 		}
-	case 2:
+	case c == 2:
 		for i, n := 0, 1+rnd.IntN(3); i < n; i++ {
 			e.hist = append(e.hist, [2]float64{c12Num(rnd, plain), c12Num(rnd, plain)})
 		}
-		if rnd.IntN(2) == 0 {
+		switch rnd.IntN(4) {
+		case 0:
 			e.values = append(e.values, c12Num(rnd, plain))
+		case 1:
+			if !plain {
+				e.uniq = append(e.uniq, int64(rnd.IntN(9))) // histogram + uniques, no plain values
+			}
 		}
-	case 3:
+	case c == 3:
 		for i, n := 0, 1+rnd.IntN(4); i < n; i++ {
 			e.uniq = append(e.uniq, int64(rnd.IntN(50))-5)
 		}
 		if rnd.IntN(4) == 0 {
 			e.uniq = append(e.uniq, []int64{math.MaxInt64, math.MinInt64, 1 << 53}[rnd.IntN(3)])
 		}
-	case 4:
+	case c == 4:
 		if !plain {
 			e.values = append(e.values, c12Num(rnd, plain))
 			e.uniq = append(e.uniq, 7)
 		}
-	case 5:
+	case c == 5:
 		for i, n := 0, 1+rnd.IntN(3); i < n; i++ { // identical values: no digest needed
 			e.values = append(e.values, 3.5)
 		}
@@ -671,7 +732,7 @@ func c12Norm(v string) string {
 func TestVerifC12(t *testing.T) {
 	r := verifkit.Start(t, "C12", "worker")
 	defer r.Finish()
-	r.SetRule("events over: 5 metric descriptions (mixed, percentiles, resolution 5 and 15, disabled) + unknown, badly encoded and built-in names; counter absent/0/boundary/negative/NaN/Inf/±MaxFloat32(1±1e-9); 0–4 values, histograms (incl. zero weights), uniques, values+uniques, nothing; timestamps now±, far past/future; 1–12 tags drawn from plain (normal, over-long, whitespace, control, invalid UTF-8, corrupted marker), canonical/deprecated names, raw and raw64 (in/out of range, junk), draft, unknown, non-UTF-8 names, string-top, host, environment, duplicates. Every event has its own row (unique raw tag). Non-trivial = the event carries at least one number; distinct = distinct event shape (row id excluded).")
+	r.SetRule("events over: 5 metric descriptions (mixed, percentiles, resolution 5 and 15, disabled) + unknown, badly encoded and built-in names; counter absent/0/boundary/negative/NaN/Inf/±MaxFloat32(1±1e-9); 0–4 values, histograms (incl. zero weights), uniques, values+uniques, nothing; timestamps now±, far past/future; 1–12 tags drawn from plain (normal, over-long, whitespace, control, invalid UTF-8, corrupted marker), canonical/deprecated names, raw and raw64 (in/out of range, junk), draft, unknown, non-UTF-8 names, string-top, host, environment, duplicates. Every second event takes its parts from a systematic walk over all 36 combinations counter{absent,0,positive} × values{none,some} × histogram{none,zero weights,positive weights} × uniques{none,some} (counters parts.* show each combination judged as valid and invalid); the other half draws them at random. Every event has its own row (unique raw tag). Non-trivial = the event carries at least one number; distinct = distinct event shape (row id excluded).")
 	r.Assume("the agent is created with agent.MakeAgent and never Run: buckets stay in Shard.SuperQueue where the monitor reads them; the mapping cache is empty, so plain tag values stay strings")
 	ms := c12MakeStorage(t)
 	r.SetCounter("builtin_metrics_not_receivable", int64(len(c12BuiltinNotReceivable()))) // also fills the list before the workers start
@@ -690,7 +751,7 @@ func TestVerifC12(t *testing.T) {
 				before = c12Take(a)
 			}
 			id := int32(i%perAgent + 1)
-			e := c12Gen(rnd, id, uint32(time.Now().Unix()))
+			e := c12Gen(rnd, i, id, uint32(time.Now().Unix()))
 			mb := e.toTL()
 			var firstErr error
 			args := data_model.HandlerArgs{MetricBytes: mb, Scratch: &scratch, FirstError: &firstErr}
@@ -757,6 +818,23 @@ func c12Judge(r *verifkit.Run, w *verifkit.Worker, e *c12Event, firstErr error, 
 	}
 	sort.Strings(statusDelta)
 	valid := len(e.reasons) == 0
+	{ // which parts the event carried, by verdict of the reference (all 16 × 2 must show up)
+		parts := "parts."
+		for _, p := range []struct {
+			on bool
+			s  string
+		}{{e.hasCounter && e.counter != 0, "counter"}, {len(e.values) > 0, "values"}, {len(e.hist) > 0, "histogram"}, {len(e.uniq) > 0, "uniques"}} {
+			if p.on {
+				parts += "+" + p.s
+			}
+		}
+		if valid {
+			parts += ".valid"
+		} else {
+			parts += ".invalid"
+		}
+		w.Count(parts, 1)
+	}
 	nontrivial := e.hasCounter || len(e.values)+len(e.hist)+len(e.uniq) > 0
 	if e.notJudged != "" && valid {
 		// the statement calls a tag value that is not UTF-8 invalid; the code only looks at values of
